@@ -23,6 +23,64 @@ CHECKS = {
         technique="Coq refinement proof (lockstep simulation, induction over operation lists) + differential correspondence model/implementation evaluated with vm_compute",
         design="§4 C16",
     ),
+    "C08": dict(
+        text=("Coq theorems over an executable model of the data-type codec driven by tables regenerated from const.py / "
+              "utils.py on every run: for every row of STATE_VARIABLE_TYPE_MAPPING (26 names) and every value of its Python "
+              "type (all integers via Decimal, all strings, both booleans, all floats but nan under the stated CPython "
+              "repr/parse premise, all dates 0001..9999, all times/date-times at whole seconds with offsets of whole minutes) "
+              "out-coercion followed by in-coercion (parse_date_time over the generated matcher table) returns the value, in "
+              "the normative wire format; conversion failures are only ever ValueError; the schema accepts exactly "
+              "type/tz/allowed/range; rejected values are never stored. The model is run against real UpnpStateVariable "
+              "objects (built by UpnpFactory) on generated codec cases and variable histories."),
+        technique="Coq proof (symbolic digit-token evaluation of the generated regex/strptime table, Decimal round trip, boolean decision rules) + source-generated tables + differential correspondence",
+        design="§4 C08",
+    ),
+    "C09": dict(
+        text=("Five Coq theorems, by induction over arbitrary call histories with a registry invariant: for every history of "
+              "subscribe / renew (by service, by SID, all) / unsubscribe calls and every scripted publisher reaction sequence in "
+              "the stated domain, the model of UpnpEventHandler satisfies registry_mirror, returns, renew_fallback, "
+              "unsubscribe_immediate and requests_valid (executable clauses over (history, observations) defined from the "
+              "publisher's exchange log; clause 1 additionally proved to mean pointwise equality of routed and publisher-side "
+              "tables). The except ladder, exception hierarchy and default timeouts are regenerated from the source. The model "
+              "is run against the real class after every call on every history to depth 4 over a small alphabet and random "
+              "histories to depth 40, the same clauses evaluated on the implementation's observations."),
+        technique="Coq proof by induction over call histories (registry invariant, per-call soundness lemmas, proofs computed over the generated except ladder) + differential correspondence",
+        design="§4 C09",
+    ),
+    "C17": dict(
+        text=("Coq theorems over an executable interpreter of the requesters' except ladders, retry loop and Host-header "
+              "helper, where the ladders, the exception-class hierarchy and the retry count are regenerated from aiohttp.py / "
+              "exceptions.py and the installed aiohttp on every check: for every outcome sequence over all exception classes a "
+              "ClientSession can raise the result is the first successful exchange or a UpnpCommunicationError-family error "
+              "(timeouts/connection failures as UpnpConnectionError, response errors with their status); at most 3 attempts, "
+              "repeated only after connection-level faults (induction over the retry count, general in the tables, plus a "
+              "finite forallb check of the generated tables); scoped-IPv6 URLs get a Host without the zone. Run against the "
+              "real requesters with a scripted fake ClientSession, exhaustively for short outcome sequences."),
+        technique="Coq proof (table interpreter, induction over the retry loop, finite forallb over the generated class list) + source-generated tables + differential correspondence",
+        design="§4 C17",
+    ),
+    "C19": dict(
+        text=("Coq theorems over an executable model of the LastChange path (content-handler fold over SAX events, "
+              "error-swallowing parse, dlna_handle_notify_last_change, notify_changed_state_variables, DmrDevice._on_event with "
+              "nested re-expansion): totality for every SAX event list and every history; exact expansion, one further callback, "
+              "nothing without instance 0, for every well-formed Event/InstanceID*/variable* tree. Parser and coercers are oracles "
+              "whose premises appear in the statements. Tied to /repo by a differential check on rendered documents, small-scope "
+              "exhaustive documents and character/byte-level mutations, the same boolean clauses evaluated on the "
+              "implementation's observations."),
+        technique="Coq proof (induction over SAX event lists and histories, fuel bounded by a length measure) with oracle-parameterised statements + differential correspondence",
+        design="§4 C19",
+    ),
+    "C20": dict(
+        text=("Coq theorems over an executable model of IgdDevice and the profile lookup: for every gateway configuration (any "
+              "device tree, services, action subsets), every alias-set order and every history of operations and traffic "
+              "samples, requests reach an offered service of the right family that defines the action; 'not available' only "
+              "when none does; typed results; totals >= 0 for readings >= -2^31; rates absent or exactly delta/elapsed "
+              "(bytes/1024); each slot depends only on its own reading. The alias and operation tables, offset, KiB divisor and "
+              "gather list are regenerated from profiles/igd.py on every run and proved equal to the standard by computation. "
+              "Run against the real IgdDevice on all 32 service subsets x all operations and reading series."),
+        technique="Coq proof (induction over alias/type/device lists and over histories with a state invariant; computation on regenerated tables) + differential correspondence",
+        design="§4 C20",
+    ),
 }
 
 NOT_YET = "check not built yet (work in progress this session; see DESIGN.md §8 for the construction order)"
